@@ -15,6 +15,8 @@ def spec(tier):
                  what="the 36 defect variants under re-layout: letter case (as written / upper / title) x line ending (LF / CRLF / CR) x trailing blanks+comments x 0..3 blank lines above (quick: 3 of the 9 case/ending combinations): same class, same severity, same line, no unrelated error")
     obs += parts("D.inherit_orders", "C05_resolve.py", "inherit_orders", 8, 250 if tier == "quick" else 900,
                  what="three-level EXTENDS chain (abstract base with a deferred binding, abstract intermediate, concrete leaf) in three files plus a user, indexed in all 24 file orders by the real workspace_init and by opening the files one by one: components / bindings of every level resolve through obj%, completion after obj% offers exactly all of them, the leaf's unimplemented deferred binding is reported")
+    obs += parts("D.resave", F, "resave", 8, 250 if tier == "quick" else 900,
+                 what="diagnostics are a function of the text: 1-3 further saves of the unchanged file (line-length limits set) publish the same list as the first time, for the base program and every defect variant")
     return dict(
         obligations=obs,
         functions=["Scope.check_definitions", "Scope.check_use", "Variable.check_definition", "Subroutine.get_diagnostics", "Type.get_diagnostics",
